@@ -584,6 +584,13 @@ def rule_doc_in_range(prog):
             # range, which AstInfo::to_text_range starts behind them - IDENT-RANGE)
             n += 1
             inside = any(p.get("k") == "Call" and (hir.callee(p) or "").endswith("parser::utility::info") for p in parents)
+            if not inside:
+                # a parser value that is put together first and used below info(..): `let skipped = tuple((many0(comment), ..)); info(skipped)(input)`
+                for p in parents:
+                    if p.get("k") == "Let" and p.get("init") is not None and p["pat"].get("k") == "Binding":
+                        uses = [(y, yp) for y, yp in hir.walk(b["body"]) if y.get("k") == "Path" and (hir.path_local(y) or {}).get("id") == p["pat"]["id"]]
+                        if uses and all(any(q.get("k") == "Call" and (hir.callee(q) or "").endswith("parser::utility::info") for q in yp) for _, yp in uses):
+                            inside = True
             out.add(b["d"], "leading comments are consumed inside the node's info(..) range", inside, c.loc(call["sp"]),
                     "`many0(comment)` runs outside `info(..)`: the comments are consumed but lie outside the node's token range, so "
                     "whoever slices with that range (formatter, semantic tokens) never sees them")
